@@ -381,3 +381,7 @@ CLAIMS["C08"]["text"] += (" Peer-ID checks run under both values of the process-
 CLAIMS["C08"]["note"] += (" MatchesPublicKey is judged against the ID for the current setting only (the library re-derives the ID; the statement does not require an ID derived under the other setting to match). Envelope, peerstore and key tests run under the default setting only.")
 
 CLAIMS["C11"]["text"] += (" After a granted refresh from the same address the generator often moves the clock just past the reservation's ORIGINAL expiry (while the refreshed one is still live) and lets other peers ask from that address, so that the per-IP/ASN caps are probed against a refreshed reservation (labels clock-passes-original-expiry-of-a-refreshed-reservation, reserve-from-the-address-...).")
+
+CLAIMS["C04"]["text"] += (" A WebSocket-listener layer (TestWebSocketListener) drives the real /ws and /tls/ws listener over loopback behind the real gate and a counting resource manager, with every shape of inbound HTTP exchange: a valid upgrade; upgrades refused with 4xx before the hijack or closed after it; plain, partial and non-HTTP requests; TLS or plaintext mismatch; each followed by hang-up, half-close, stall or more data. "
+    "A connection which never became a WebSocket connection must have its scope Done and raw socket closed once the handshake timeout has passed, and after Close the manager reads zero and every connection is closed as seen from the remote end.")
+CLAIMS["C04"]["note"] += (" The WebSocket layer uses real sockets and real time: the verdict depends on time only through 5 s upper bounds. The consumer of Accept is the harness; the outbound ws dial and the libp2p upgrade on top of ws are not driven; connections served by the fallback handler are audited after Close only.")
